@@ -111,3 +111,6 @@
 (assert (forall ((p Bytes) (b Bytes)) (! (=> (> (blen p) 0) (and (contains (bcat p b) p) (= (splitHead (bcat p b) p) bempty) (= (splitTail (bcat p b) p) b))) :pattern ((contains (bcat p b) p)))))
 (assert (forall ((p Bytes) (b Bytes)) (! (=> (> (blen p) 0) (and (contains (bcat p b) p) (= (splitHead (bcat p b) p) bempty) (= (splitTail (bcat p b) p) b))) :pattern ((splitAll (bcat p b) p)))))
 (assert (forall ((d Bytes) (c Int)) (! (=> (and (allDigits d) (or (< c 48) (> c 57))) (noByte d c)) :pattern ((allDigits d) (noByte d c)))))
+; joining the same base with two clean relative paths gives the same path only for the same relative path (assumed: staged paths are clean)
+(assert (forall ((a Bytes) (b Bytes) (c Bytes)) (! (=> (= (pjoin a b) (pjoin a c)) (= b c)) :pattern ((pjoin a b) (pjoin a c)))))
+(assert (not (validZlib bempty)))
